@@ -9,7 +9,8 @@ from streams import mh
 TB = [
     "Lean 4.33 kernel; axioms allowed: propext, Classical.choice, Quot.sound (checked by #print axioms on every theorem)",
     "md5 is not modelled: the model caches the pre-image (ksize, mins); the harness applies hashlib.md5 to it. 'changed hash set => changed md5' holds modulo md5 collisions",
-    "hand-written model of the md5 cache (MH.md5) and of every reset_md5sum() call site, tied to /repo by the mh stream with md5 queries interleaved (differential testing); the translator records the number of reset_md5sum() sites per mutator",
+    "hand-written model of the md5 cache (MH.md5) and of every reset_md5sum() call site, tied to /repo by the mh stream with md5 queries interleaved (differential testing); harness/translators/mhcore.py re-extracts every write to self.mins / self.ksize in every &mut self method of KmerMinHash and KmerMinHashBTree and whether a reset_md5sum() lies on every way out of it, the delegating methods, the shape of md5sum / reset_md5sum / Clone and the FFI callees (theorems every_mutation_site_resets, mutators_are_the_modelled_ones, delegators_are_the_modelled_ones, reset_sites_match_model, md5_shape_matches_model)",
+    "signature objects are modelled as cells holding their own sketch value (clone in / clone out); name and filename are not md5 inputs",
     "Rust Mutex<Option<String>> semantics; cffi",
 ]
 AS = ["md5 queries observed two ways: kmerminhash_md5sum on the object itself, and SourmashSignature(mh).md5sum() (clone in, clone out)"]
